@@ -7,7 +7,7 @@ use crate::clock;
 use crate::codec::{self, Packet};
 use crate::run::{self, with_session};
 use crate::util::{mix, Tape};
-use crate::world::{self, with, Accept, OpWeights, Phase, Profile, RunCfg, Violation, World};
+use crate::world::{self, with, Accept, OpWeights, Phase, Profile, ReqKind, RunCfg, Violation, World};
 use crate::Scenario;
 
 pub fn extra_scenarios() -> Vec<Scenario> {
@@ -23,6 +23,7 @@ pub fn extra_scenarios() -> Vec<Scenario> {
         Scenario::Bytes(0),
         Scenario::Bytes(1),
         Scenario::Bytes(2),
+        Scenario::Bytes(3),
     ]
 }
 
@@ -137,7 +138,11 @@ pub fn cfg_for(scn: Scenario, t: &mut Tape, extra: u64) -> RunCfg {
             c.client_id = "b".into();
             c.will = None;
             c.auth = None;
-            c.rx_len = if matches!(scn, Scenario::Bytes(1)) { 512 } else { 64 };
+            c.rx_len = match scn {
+                Scenario::Bytes(1) => 512,
+                Scenario::Bytes(3) => [16usize, 64, 127, 128, 129, 130, 131, 200, 256, 300, 512, 1000, 16383, 16384, 16385, 16386, 16500, 20000][t.choose(18) as usize],
+                _ => 64,
+            };
             c.tx_len = 256;
             c.session_expiry = 3600;
             c.id_burn = 0;
@@ -183,6 +188,9 @@ pub enum SStep {
     Sub(SubSpec),
     Unsub(UnsubSpec),
     BrokerPub,
+    /// the broker publishes and the application takes the message with a single poll(): the
+    /// acknowledgement it owes is still queued when the next step starts
+    BrokerPubTake,
     Poll,
     Reconnect,
     Disconnect,
@@ -192,7 +200,7 @@ fn gen_script(w: &mut World, with_disconnect: bool) -> Vec<SStep> {
     let n = 3 + w.tape.choose(14);
     let mut v = Vec::new();
     for _ in 0..n {
-        let s = match w.tape.weighted(&[4, 6, 6, 2, 2, 5, 3, 1]) {
+        let s = match w.tape.weighted(&[4, 6, 6, 2, 2, 5, 3, 1, 4]) {
             0 => {
                 SStep::Pub(gen_publish(w, 0))
             }
@@ -202,7 +210,8 @@ fn gen_script(w: &mut World, with_disconnect: bool) -> Vec<SStep> {
             4 => SStep::Unsub(gen_unsubscribe(w)),
             5 => SStep::BrokerPub,
             6 => SStep::Poll,
-            _ => SStep::Reconnect,
+            7 => SStep::Reconnect,
+            _ => SStep::BrokerPubTake,
         };
         v.push(s);
     }
@@ -229,6 +238,13 @@ pub struct TwinObs {
     pub cancelled_after_bytes: u64,
     pub cancels: u64,
     pub fragments: u64,
+    /// identifier-bearing requests in issue order: (tag, session epoch, identifier of the first
+    /// transmission, definitely never enqueued)
+    pub ids: Vec<(u32, u32, Option<u16>, bool)>,
+    pub epochs: u32,
+    pub nconns: usize,
+    /// tags refused for lack of a resource (arena space, in-flight slots, send quota)
+    pub refused_for_resources: Vec<u32>,
 }
 
 fn drain_to_idle(conn: &mut Conn<'_, '_>) -> bool {
@@ -238,6 +254,16 @@ fn drain_to_idle(conn: &mut Conn<'_, '_>) -> bool {
         match r {
             Res::Cancelled => {
                 if with(|w| w.last_cancel_idle) {
+                    // the connection is idle: whatever was enqueued has been transmitted, so a
+                    // request without any transmission was never enqueued
+                    with(|w| {
+                        let v: Vec<u32> = w.reqs.iter().filter(|r| r.accept == Accept::Maybe && r.tx_by_conn.is_empty() && r.first_tx.is_none()).map(|r| r.tag).collect();
+                        for t in v {
+                            if !w.never_enqueued.contains(&t) {
+                                w.never_enqueued.push(t);
+                            }
+                        }
+                    });
                     return true;
                 }
             }
@@ -288,6 +314,36 @@ fn exec_script(session: &mut minimq::Session<'_>, script: &[SStep]) {
                         let cur = w.cur;
                         broker::broker_publish(w, cur);
                     });
+                }
+                SStep::BrokerPubTake => {
+                    let before = with(|w| {
+                        let cur = w.cur;
+                        broker::broker_publish(w, cur);
+                        w.delivered.len()
+                    });
+                    let opts = ExecOpts { cancellable: true, idle_cancel: true, budget_us: None, timer_is_idle: true };
+                    let mut taken = false;
+                    for _ in 0..60 {
+                        let r = do_wait(&mut conn, Wait::Poll, Some(opts));
+                        if r.is_fatal() {
+                            dead = true;
+                            break;
+                        }
+                        if with(|w| w.delivered.len()) > before {
+                            taken = true;
+                            break;
+                        }
+                        if r == Res::Cancelled && with(|w| w.last_cancel_idle) {
+                            break;
+                        }
+                        if with(|w| w.cut) {
+                            break;
+                        }
+                    }
+                    if taken && !dead {
+                        with(|w| w.probe("twin_step_with_ack_backlog"));
+                        continue; // no drain: the next step meets the queued acknowledgement
+                    }
                 }
                 SStep::Poll => {}
                 SStep::Reconnect => reconnect = true,
@@ -353,6 +409,20 @@ fn observe(w: &World) -> TwinObs {
         delivered: w.delivered.clone(),
         results: w.results.clone(),
         not_accepted,
+        ids: w
+            .reqs
+            .iter()
+            .filter(|r| r.qos > 0 || r.kind != ReqKind::Pub)
+            .map(|r| (r.tag, r.epoch, r.id, r.accept == Accept::NotAccepted || w.never_enqueued.contains(&r.tag)))
+            .collect(),
+        epochs: w.epoch,
+        nconns: w.conns.len(),
+        refused_for_resources: w
+            .reqs
+            .iter()
+            .filter(|r| r.accept == Accept::NotAccepted && matches!(r.refused_with.as_deref(), Some("NotReady") | Some("BufferTooSmall") | Some("InflightExhausted")))
+            .map(|r| r.tag)
+            .collect(),
         cancelled_after_bytes: w.stats.probes.get("cancel_after_partial_write").copied().unwrap_or(0),
         cancels: w.stats.faults.get("cancel_at_stall").copied().unwrap_or(0) + w.stats.faults.get("cancel_at_read_or_timer").copied().unwrap_or(0),
         fragments: w.stats.faults.get("partial_write").copied().unwrap_or(0) + w.stats.faults.get("fragmented_read").copied().unwrap_or(0),
@@ -454,7 +524,9 @@ fn cancel_twin() {
             return;
         }
         // remove from the base run what was not accepted in the twin
-        let drop_tag = |k: &String| twin.not_accepted.iter().any(|t| k.ends_with(&format!(" t{t}")));
+        // ... and from the twin what the base run refused for lack of a resource: requests that
+        // were cancelled before being enqueued leave the twin with more room than the base run
+        let drop_tag = |k: &String| twin.not_accepted.iter().chain(base.refused_for_resources.iter()).any(|t| k.ends_with(&format!(" t{t}")));
         let filt = |v: &Vec<Vec<String>>| -> Vec<String> { v.iter().flatten().filter(|k| !drop_tag(k) && *k != "DISCONNECT").cloned().collect() };
         let a = filt(&base.keys);
         let b = filt(&twin.keys);
@@ -474,6 +546,38 @@ fn cancel_twin() {
                 format!("outbound-sequence-differs/base={},twin={}", what(&a), what(&b)),
                 format!("packet #{i}: uncancelled run sent {:?}, cancelled run sent {:?}; base {:?} twin {:?}", a.get(i), b.get(i), a, b),
             );
+        }
+        // "one that was not [enqueued] leaves no trace": a request that was never enqueued must
+        // not have consumed a packet identifier either. Comparable when both executions went
+        // through the same sessions and every request missing from the twin is known to have
+        // never been enqueued.
+        if a == b && base.nconns == twin.nconns && base.epochs == twin.epochs {
+            let base_id = |t: u32| base.ids.iter().find(|x| x.0 == t).and_then(|x| x.2);
+            let comparable = twin.ids.iter().all(|x| match (base_id(x.0), x.2) {
+                (Some(_), Some(_)) => true,
+                (Some(_), None) => x.3,
+                (None, None) => true,
+                (None, Some(_)) => false,
+            }) && twin.ids.len() == base.ids.len();
+            if comparable {
+                for x in twin.ids.iter() {
+                    let (Some(bid), Some(tid)) = (base_id(x.0), x.2) else { continue };
+                    let shift = twin.ids.iter().filter(|u| u.0 < x.0 && u.1 == x.1 && u.2.is_none() && base_id(u.0).is_some()).count() as u16;
+                    if tid != bid.wrapping_sub(shift) {
+                        w.violate(
+                            "C13",
+                            "identifier-consumed-by-request-that-was-never-enqueued".into(),
+                            format!(
+                                "request t{} carries identifier {tid} in the run with cancellations; the uncancelled run used {bid} and {shift} earlier request(s) of the session were cancelled before being enqueued, so {} was expected: a cancelled, never-enqueued request left a trace in the identifier counter",
+                                x.0,
+                                bid.wrapping_sub(shift)
+                            ),
+                        );
+                        break;
+                    }
+                }
+                w.probe("twin_identifier_sequence_compared");
+            }
         }
         if base.delivered != twin.delivered {
             w.violate(
